@@ -842,7 +842,8 @@ impl Expression {
             }
 
             // parse as normal DEC
-            let mut int = Some(0);
+            let mut int = Some(0i64);
+            let mut int_overflow = false;
             loop {
                 let next = ps.next().unwrap();
                 if next == 'e' {
@@ -876,7 +877,10 @@ impl Expression {
                     // '0'..='9'
                     if let Some(x) = int.as_mut() {
                         let d = next as i64 - '0' as i64;
-                        *x = *x * 10 + d;
+                        match x.checked_mul(10).and_then(|x| x.checked_add(d)) {
+                            Some(v) => *x = v,
+                            None => int_overflow = true,
+                        }
                     }
                 }
                 let Some(peek) = ps.peek::<0>() else { break };
@@ -892,7 +896,8 @@ impl Expression {
                     return None;
                 }
             }
-            let num = match int {
+            // beyond the range of an integer the literal is a float (as in JS)
+            let num = match int.filter(|_| !int_overflow) {
                 None => {
                     let Ok(num) = ps.code_slice(start_index..ps.cur_index()).parse::<f64>() else {
                         ps.add_warning_at_current_position(
